@@ -278,10 +278,10 @@ void test_fft(uint64_t cs, int nh, int hk, int nx, int xk, int nf, bool emit, in
     // oracle: defining sum (normwise bound over the blocks that feed output i) + equality with the direct filter
     const Stream<T> c(h, true), xs(x);
     const ld hn = c.norm2(0, nh);
-    // CORR line: block size, then the scale ||h||_2*||x||_2 (the model's FFT is a different algorithm: its outputs are
-    // compared normwise, and the largest input sample may sit in a block whose tail has not been emitted yet), then the frames
+    // CORR line: block size, then the frames' outputs (the model runs the C01 model of the library's own plans, in the library's
+    // operation order: the outputs are compared bit for bit, no scale token)
     if (emit) out.corr(std::string("fft") + tn + " " + std::to_string(stride) + " " + vh::hxs(h) + " " + frames_str(x, lens),
-                       std::to_string(bs) + " " + vh::hx((double)(hn * xs.norm2(0, nx))) + outs);
+                       std::to_string(bs) + outs);
     const int ny = y.size();
     std::vector<ld> bn;   // ||x_block||_2
     for (int b = 0; b * bs < ny; ++b) bn.push_back(xs.norm2(b * bs, (b + 1) * bs));
